@@ -33,6 +33,8 @@ RECURSIVE WordsUpTo(_)
 WordsUpTo(n) == IF n = 0 THEN {<<>>} ELSE WordsUpTo(n - 1) \cup {w \o <<c>> : w \in WordsUpTo(n - 1), c \in {1, 2}}
 Probe == WordsUpTo(3)
 
+(* the single-variable form of ConcatL used by the TLAPS lemmas (spec/tlaps/LangLemmas.tla) is the same set *)
+ConcatForms == ConcatL(LangOf(a), LangOf(b)) = {p[1] \o p[2] : p \in LangOf(a) \X LangOf(b)}
 SymbolicEquality == EqD(DescAst(a), DescAst(b), 2, FALSE) = (LangOf(a) = LangOf(b))
 SymbolicEqualityModEps == EqD(DescAst(a), DescAst(b), 2, TRUE) = (LangOf(a) \ {<<>>} = LangOf(b) \ {<<>>})
 SymbolicMembership == \A w \in Probe : Accepts(DescAst(a), w) = (w \in LangOf(a))
